@@ -1500,10 +1500,55 @@ Definition c_rowbinding (p : prog) : bool :=
                     | _ => false
                     end) p.
 
+(* a third clash: formatter.rs prints logical not as `¬`, and the real grammar accepts `¬x` as a record FIELD NAME; a map
+   all of whose keys are identifier-like once printed (`a`, `true`, `¬x`) therefore re-parses as a record.  (With the
+   `!` spelling at least one key is not a field name, which is why the source parsed as a map.) *)
+(* after a leading `¬` the identifier may continue with letters, digits and `/`: `¬22/7` is a field name too *)
+Definition idtail_num (s : string) : bool :=
+  all_chars (fun c => is_alpha c || is_digit c || Ascii.eqb c "/") s.
+Fixpoint idlike_tail (e : ex) : bool :=
+  match e with
+  | EVar _ None => true
+  | ELit (LBool _) None => true
+  | ELit (LNum s) None => idtail_num s
+  | ENot e => idlike_tail e
+  | _ => false
+  end.
+Definition idlike (e : ex) : bool :=
+  match e with
+  | EVar _ None => true
+  | ELit (LBool _) None => true
+  | ENot e => idlike_tail e
+  | _ => false
+  end.
+
+Definition c_mapnot (e : ex) : bool :=
+  match e with
+  | EMap ((_ :: _) as ms) =>
+      forallb (fun m => idlike (fst m)) ms && existsb (fun m => match fst m with ENot _ => true | _ => false end) ms
+  | _ => false
+  end.
+
+(* a fourth: inside a table literal the cells are delimited by `|`; a cell that contains the logical-or operator `||`
+   is read by the real grammar as cell delimiters (the SOURCE already denotes another tree) *)
+Definition has_or (e : ex) : bool := has_op (fun o => match o with OOr => true | _ => false end) e.
+Definition rhs_tableor (r : rhs) : bool :=
+  match r with RTable _ rows => existsb (existsb (exists_ex has_or)) rows | _ => false end.
+Definition c_tableor (p : prog) : bool :=
+  existsb (fun s => match s with
+                    | SDefine _ _ _ r | SAssign _ _ r | SOpAssign _ _ _ r | SExpr r => rhs_tableor r
+                    | _ => false
+                    end) p.
+
 Definition lex_class_of (p : prog) : option string :=
   if exists_prog c_commaswizzle p then Some "comma-swizzle"
   else if c_rowbinding p then Some "table-row-reads-as-record"
+  else if exists_prog c_mapnot p then Some "map-keys-read-as-record"
+  else if c_tableor p then Some "table-cell-or"
   else None.
+
+(* classes in which the real grammar reads the SOURCE text of the case as another tree than p *)
+Definition source_ambiguous (p : prog) : bool := c_rowbinding p || c_tableor p.
 
 Definition judge_prog (p : prog) (o : obs8) : sx :=
   let ti := fmt_prog true p in
@@ -1607,7 +1652,18 @@ Definition judge_fmt (x : sx) : sx :=
   | Lx [Lx (Ax t :: stmts); o] =>
       if String.eqb t "prog" then
         match map_opt dec_stmt stmts with
-        | Some p => if wf_prog p && lex_ok p then judge_prog p (dec_obs8 o) else v_malformed
+        | Some p =>
+            if wf_prog p && lex_ok p then
+              let o' := dec_obs8 o in
+              let v := judge_prog p o' in
+              (* the text differs from the model's AND the source itself is ambiguous for the real grammar: the case's
+                 claim about p is void; what remains is the real round trip of whatever tree the parser built, which is
+                 judged like every other document (by its own features) *)
+              match v with
+              | Lx [Ax "bad"; Ax "text-differs-from-model"; _] => if source_ambiguous p then judge_diff diff_classes o' else v
+              | _ => v
+              end
+            else v_malformed
         | None => v_malformed
         end
       else if String.eqb t "diff" then judge_diff diff_classes (dec_obs8 o)
